@@ -73,3 +73,102 @@ pub fn err_block_type(err: &str) -> Option<String> {
         .unwrap_or(rest.len());
     Some(rest[..end].to_string())
 }
+
+// ------------------------------------------------------------------ circuit breaker helpers
+
+use common::models::{BEvent, BState, BStrategy, BreakerSpec};
+use sentinel_core::circuitbreaker as cb;
+use std::sync::{Arc, Mutex, Once};
+
+pub fn to_bstate(s: cb::State) -> BState {
+    match s {
+        cb::State::Closed => BState::Closed,
+        cb::State::HalfOpen => BState::HalfOpen,
+        cb::State::Open => BState::Open,
+    }
+}
+
+static LISTENER_LOG: Mutex<Vec<(String, BEvent)>> = Mutex::new(Vec::new());
+static LISTENER_ONCE: Once = Once::new();
+
+struct RecordingListener;
+
+impl cb::StateChangeListener for RecordingListener {
+    fn on_transform_to_closed(&self, prev: cb::State, rule: Arc<cb::Rule>) {
+        LISTENER_LOG
+            .lock()
+            .unwrap()
+            .push((rule.id.clone(), BEvent::ToClosed(to_bstate(prev))));
+    }
+    fn on_transform_to_open(
+        &self,
+        prev: cb::State,
+        rule: Arc<cb::Rule>,
+        _snapshot: Option<Arc<sentinel_core::base::Snapshot>>,
+    ) {
+        LISTENER_LOG
+            .lock()
+            .unwrap()
+            .push((rule.id.clone(), BEvent::ToOpen(to_bstate(prev))));
+    }
+    fn on_transform_to_half_open(&self, prev: cb::State, rule: Arc<cb::Rule>) {
+        LISTENER_LOG
+            .lock()
+            .unwrap()
+            .push((rule.id.clone(), BEvent::ToHalfOpen(to_bstate(prev))));
+    }
+    fn on_circuit_breaker_drop(&self, _prev: cb::State, _rule: Arc<cb::Rule>) {}
+}
+
+/// register the recording listener (once per process)
+pub fn install_breaker_listener() {
+    LISTENER_ONCE.call_once(|| {
+        cb::register_state_change_listeners(vec![Arc::new(RecordingListener)]);
+    });
+}
+
+pub fn drain_breaker_events() -> Vec<(String, BEvent)> {
+    std::mem::take(&mut *LISTENER_LOG.lock().unwrap())
+}
+
+pub fn cb_rule(res: &str, s: &BreakerSpec) -> cb::Rule {
+    cb::Rule {
+        resource: res.to_string(),
+        strategy: match s.strategy {
+            BStrategy::SlowRatio => cb::BreakerStrategy::SlowRequestRatio,
+            BStrategy::ErrorRatio => cb::BreakerStrategy::ErrorRatio,
+            BStrategy::ErrorCount => cb::BreakerStrategy::ErrorCount,
+        },
+        retry_timeout_ms: s.retry_timeout_ms as u32,
+        min_request_amount: s.min_request_amount,
+        stat_interval_ms: s.stat_interval_ms as u32,
+        stat_sliding_window_bucket_count: s.bucket_count as u32,
+        max_allowed_rt_ms: s.max_allowed_rt_ms,
+        threshold: s.threshold,
+        ..Default::default()
+    }
+}
+
+pub fn spec_json(s: &BreakerSpec) -> serde_json::Value {
+    serde_json::json!({
+        "strategy": format!("{:?}", s.strategy), "retry_timeout_ms": s.retry_timeout_ms,
+        "min_request_amount": s.min_request_amount, "stat_interval_ms": s.stat_interval_ms,
+        "bucket_count": s.bucket_count, "max_allowed_rt_ms": s.max_allowed_rt_ms, "threshold": s.threshold,
+    })
+}
+
+pub fn spec_from_json(v: &serde_json::Value) -> BreakerSpec {
+    BreakerSpec {
+        strategy: match v["strategy"].as_str().unwrap() {
+            "SlowRatio" => BStrategy::SlowRatio,
+            "ErrorRatio" => BStrategy::ErrorRatio,
+            _ => BStrategy::ErrorCount,
+        },
+        retry_timeout_ms: v["retry_timeout_ms"].as_u64().unwrap(),
+        min_request_amount: v["min_request_amount"].as_u64().unwrap(),
+        stat_interval_ms: v["stat_interval_ms"].as_u64().unwrap(),
+        bucket_count: v["bucket_count"].as_u64().unwrap(),
+        max_allowed_rt_ms: v["max_allowed_rt_ms"].as_u64().unwrap(),
+        threshold: v["threshold"].as_f64().unwrap(),
+    }
+}
